@@ -11,10 +11,11 @@
    [reopen] = OpenReadWrite / OpenReadableWritable on the image (ResumableVersion + Resume);
    [cs_done] = number of puts of the crashing process that had returned at that point;
    [crash_class] / [crash_guard] = where the crash point lies (executable). *)
-From GoCar Require Import Bytes Varint Cid Header Frame V2Header Index Scan Store Crash.
-From GoCarProofs Require Import HeaderFacts ResumeInv ResumeRefuted CrashTheorems CrashRefuted.
+From GoCar Require Import Bytes Varint Cid Header Frame V2Header Index Scan Store Crash StoreSpec Wf.
+From GoCarProofs Require Import CidFacts HeaderFacts ResumeInv ResumeRefuted CrashTheorems CrashRefuted CrashGuarded.
 
-(* (1) PARTIAL.  Crash point in the open writes of a fresh process, at a section boundary before
+(* (1) PARTIAL.  Crash point in the open writes of a fresh process, in the writes Resume itself issued
+   (Truncate, header zeroing) when the process started by resuming, at a section boundary before
    Finalize's first write, or inside a section's length varint / CID (guard [crash_guard], executable;
    fresh or resumed process, all options, both front-ends, every k and t):
    either the reopen is refused and has left the image byte for byte as it was, or it succeeds and
@@ -46,6 +47,71 @@ Theorem C06_partial :
          ws_file (fst (fe_finalize (run_puts s1 more))) = ws_file (fst (fe_finalize (run_puts sj more)))).
 Proof. exact C06_partial_thm. Qed.
 Print Assumptions C06_partial.
+
+(* (1') THE PROPERTY, GUARDED.  The same crash points, in the property's own words.  Under C04's
+   hypotheses on what is put (a key that parses at all is a CID as go-cid produces it, the section fits
+   MaxAllowedSectionSize) and content addressing (blocks put under the same key carry the same
+   bytes; an identity CID carries its data): the reopen is refused and the image untouched, or
+   it succeeds and
+   - every block whose Put had returned ([cs_acked]: in earlier processes or in the crashing one) is
+     found by Has and Get returns exactly its bytes;
+   - every put block the store claims to have comes back with its bytes;
+   - the index holds only keys that were put;
+   - continuing with ANY further puts and Finalize (known codec; C05's side conditions) answers nil
+     and leaves a file that is well formed in the sense of C05 ([wf_parse], [wf_car]): its roots are
+     the session's, its blocks are blocks that were put, and every acknowledged block -- of the crashed
+     session and of the continuation -- is in it under its key with its exact bytes.
+   Derived from (1) through the layout invariant, the C04 lemmas on ShouldPut / Has / FindCid and
+   C05_wf (proofs/CrashGuarded.v). *)
+Theorem C06_crash_safe_guarded :
+  forall (hdrdec : bytes -> option (list bytes * N)) (x : csess) (f0 : bytes) (start : wstate)
+         (acked_pre : list (bytes * bytes)) (k : nat) (t : N),
+    let o := cs_opts x in
+    let hdr := enc_header (roots_opt (cs_nil x) (cs_roots x)) 1 in
+    let ca (all : list (bytes * bytes)) :=
+      (forall b1 b2, In b1 all -> In b2 all -> same_key (w_whole o) (fst b1) (fst b2) = true -> snd b1 = snd b2) /\
+      (forall b p, In b all -> cid_parse (fst b) = Some p -> is_identity p = true -> snd b = c_digest p) in
+    let wellformed_put (b : bytes * bytes) :=
+      cid_parse (fst b) <> None ->
+      (exists p, cid_ok p /\ fst b = cid_enc p /\ blen (c_digest p) <= max_digest_alloc) /\
+      blen (fst b) + blen (snd b) <= w_maxs o /\ blen (fst b) + blen (snd b) < two63 in
+    hdrdec hdr = Some (cs_roots x, 1) ->
+    (exists r, hdrdec pragma_body = Some (r, 2)) ->
+    blen hdr <= w_maxh o -> blen hdr <= default_maxh -> w_maxcid o <= max_digest_alloc ->
+    match cs_kind x with KStorage false => negb (w_v1 o) | _ => false end = false ->
+    51 + w_dpad o + w_ipad o + ld_size (blen hdr)
+      + blen (enc_sections (concat (map fst (cs_pre x)) ++ cs_puts x)) < two63 ->
+    Forall wellformed_put (cs_attempted x) ->
+    ca (cs_attempted x) ->
+    cs_start hdrdec x = Some (f0, start, acked_pre) ->
+    crash_guard x start k t = true ->
+    let img := image f0 (cs_writes x start) k t in
+    (exists e dv, reopen hdrdec (cs_kind x) o (cs_nil x) (cs_roots x) img = inr (e, dv) /\ d_file dv = img)
+    \/
+    (exists s1, reopen hdrdec (cs_kind x) o (cs_nil x) (cs_roots x) img = inl s1 /\
+      (forall b, In b (cs_acked x start acked_pre k) ->
+                 fe_has s1 (fst b) = OBool true /\ fe_get s1 (fst b) = OBytes (snd b)) /\
+      (forall b, In b (cs_attempted x) -> fe_has s1 (fst b) = OBool true -> fe_get s1 (fst b) = OBytes (snd b)) /\
+      (forall r, In r (ws_idx s1) -> exists b, In b (cs_attempted x) /\ r_cid r = fst b) /\
+      (forall more,
+         51 + w_dpad o + w_ipad o + ld_size (blen hdr)
+           + blen (enc_sections (cs_attempted x)) + blen (enc_sections more) < two63 ->
+         Forall wellformed_put more -> ca (cs_attempted x ++ more) ->
+         w_v1 o = true \/ idx_new (w_codec o) <> None ->
+         w_maxcid o + 8 <= max_width -> roots_ok (cs_roots x) ->
+         Forall (fun b : block => blen (fst b) + blen (snd b) < 2 ^ 56) (cs_attempted x ++ more) ->
+         N.of_nat (length (cs_attempted x ++ more)) < two31 ->
+         blen (ws_file (fst (fe_finalize (run_puts s1 more)))) < two63 ->
+         snd (fe_finalize (run_puts s1 more)) = ONil /\
+         exists stored',
+           wf_parse o (ws_file (fst (fe_finalize (run_puts s1 more)))) = Some (cs_roots x, stored') /\
+           wf_car o (ws_file (fst (fe_finalize (run_puts s1 more)))) = true /\
+           incl stored' (cs_attempted x ++ more) /\
+           (forall b, In b (cs_acked x start acked_pre k) \/ In b (puts_acked s1 more) ->
+              skipped_identity o b = true \/
+              exists b', In b' stored' /\ same_key (w_whole o) (fst b') (fst b) = true /\ snd b' = snd b))).
+Proof. exact C06_crash_safe_guarded_thm. Qed.
+Print Assumptions C06_crash_safe_guarded.
 
 (* (2) after the last write of the process (in particular after the last header byte of Finalize):
    the reopen succeeds and yields the store with all the puts. *)
